@@ -369,6 +369,8 @@ class Canon(object):
         self.fns = []
         self.never_none = set(never_none)
         self.sentinels = set(sentinels)
+        self.sentinel_funcs = set()
+        self.sentinel_attrs = set()
         self._thread_mode = 'none'
         self._push_known = 0
 
@@ -382,6 +384,26 @@ class Canon(object):
         if isinstance(last, ast.Assign) and len(last.targets) == 1 and isinstance(last.targets[0], ast.Name) and last.targets[0].id == x \
                 and isinstance(last.value, ast.Constant):
             return bool(last.value.value)
+        return None
+
+    def _sentinel_state(self, stmts, x, marker):
+        """is x the module-level marker object *marker* when control leaves the block at its end?"""
+        if not stmts:
+            return None
+        last = stmts[-1]
+        if isinstance(last, TERMINATORS):
+            return 'dead'
+        if isinstance(last, ast.Assign) and len(last.targets) == 1 and isinstance(last.targets[0], ast.Name) and last.targets[0].id == x:
+            v = last.value
+            if isinstance(v, ast.Name) and v.id == marker:
+                return True
+            if isinstance(v, ast.Constant):
+                return False
+            if isinstance(v, ast.Call):
+                f_ = v.func
+                nm = f_.attr if isinstance(f_, ast.Attribute) else None          # a method of another object that no marker-aware function is named like
+                if nm is not None and nm not in self.sentinel_funcs and not any(isinstance(y, ast.Name) and y.id in self.sentinels for y in ast.walk(v)):
+                    return False
         return None
 
     def _none_state(self, stmts, x):
@@ -558,7 +580,25 @@ class Canon(object):
             if b is None or e is None:
                 return None
             return list(stmts[:-1]) + [ast.copy_location(ast.If(test=last.test, body=b, orelse=e), last)]
-        st = self._none_state(stmts, x) if self._thread_mode == 'none' else self._truth_state(stmts, x)
+        if isinstance(last, ast.Try) and not last.finalbody:
+            # control leaves a try statement at the end of its else part (or of its body) and at the end of every handler
+            nt = copy.copy(last)
+            if last.orelse:
+                nt.orelse = self._push(last.orelse, x, nxt, is_none_true)
+            else:
+                nt.body = self._push(last.body, x, nxt, is_none_true)
+            nt.handlers = []
+            for h in last.handlers:
+                nh = copy.copy(h)
+                nh.body = self._push(h.body, x, nxt, is_none_true)
+                nt.handlers.append(nh)
+            return list(stmts[:-1]) + [nt]
+        if self._thread_mode == 'none':
+            st = self._none_state(stmts, x)
+        elif self._thread_mode == 'truth':
+            st = self._truth_state(stmts, x)
+        else:
+            st = self._sentinel_state(stmts, x, self._thread_mode)
         if st == 'dead':
             return list(stmts)
         if st in (True, False):
@@ -578,7 +618,7 @@ class Canon(object):
         while i < len(body):
             s = body[i]
             nxt = body[i + 1] if i + 1 < len(body) else None
-            if isinstance(s, ast.If) and s.orelse and isinstance(nxt, ast.If) and _size([nxt]) <= 40:
+            if ((isinstance(s, ast.If) and s.orelse) or (isinstance(s, ast.Try) and not s.finalbody)) and isinstance(nxt, ast.If) and _size([nxt]) <= 40:
                 t = nxt.test
                 neg = False
                 while isinstance(t, ast.UnaryOp) and isinstance(t.op, ast.Not):
@@ -589,6 +629,12 @@ class Canon(object):
                     x = t.left.id
                     is_none_true = isinstance(t.ops[0], ast.Is) != neg          # the test is true exactly when x is None
                     self._thread_mode = 'none'
+                elif isinstance(t, ast.Compare) and len(t.ops) == 1 and isinstance(t.ops[0], (ast.Is, ast.IsNot)) and isinstance(t.left, ast.Name) \
+                        and isinstance(t.comparators[0], ast.Name) and t.comparators[0].id in self.sentinels:
+                    # `if x is MARKER:` after branches that end in `x = MARKER` / `x = <something else>`
+                    x = t.left.id
+                    is_none_true = isinstance(t.ops[0], ast.Is) != neg
+                    self._thread_mode = t.comparators[0].id
                 elif isinstance(t, ast.Name):
                     # `if flag:` / `if not flag:` after branches that end in `flag = True` / `flag = False`
                     x = t.id
@@ -603,6 +649,9 @@ class Canon(object):
                         ns = new[0]
                         ns.body = self.block(ns.body) or [ast.copy_location(ast.Pass(), s)]
                         ns.orelse = self.block(ns.orelse)
+                        if isinstance(ns, ast.Try):
+                            for h in ns.handlers:
+                                h.body = self.block(h.body)
                         out.append(ns)
                         self.hit('N38')
                         i += 2
@@ -853,7 +902,19 @@ class Canon(object):
         canon = self
 
         def foreign(e):
-            if isinstance(e, (ast.Constant, ast.Attribute, ast.Call, ast.BinOp, ast.Subscript, ast.JoinedStr, ast.Tuple, ast.List, ast.Dict)):
+            if isinstance(e, ast.Call):
+                # the result of a call is the marker only if the callee can hand it out: any package function that mentions a marker might
+                f_ = e.func
+                nm = f_.attr if isinstance(f_, ast.Attribute) else (f_.id if isinstance(f_, ast.Name) else None)
+                if nm is None or nm in canon.sentinel_funcs or nm in binds or nm in params:
+                    return False
+                return not any(isinstance(x, ast.Name) and x.id in canon.sentinels for x in ast.walk(e))
+            if isinstance(e, (ast.Constant, ast.Attribute, ast.BinOp, ast.Subscript, ast.JoinedStr, ast.Tuple, ast.List, ast.Dict)):
+                if isinstance(e, ast.Subscript):
+                    return False          # an element of a container: it may be the marker
+                if isinstance(e, ast.Attribute):
+                    # a stored value is the marker only if the package stores the marker into an attribute of that name somewhere
+                    return e.attr not in canon.sentinel_attrs and not any(isinstance(x, ast.Name) and x.id in canon.sentinels for x in ast.walk(e))
                 return not any(isinstance(x, ast.Name) and x.id in canon.sentinels for x in ast.walk(e))
             if isinstance(e, ast.Name) and e.id not in canon.sentinels and e.id not in params:
                 vs = binds.get(e.id)
@@ -1949,12 +2010,37 @@ def canonicalise(trees, skip=()):
                         is_obj = isinstance(st.value, ast.Call) and isinstance(st.value.func, ast.Name) and st.value.func.id == 'object' and not st.value.args and not st.value.keywords
                         cnt.setdefault(tg.id, []).append(is_obj)
     sent = set(k for k, v in cnt.items() if v == [True])
+    sent_funcs = set()
+    sent_attrs = set()
+    if sent:
+        for n_, t_ in trees.items():
+            if n_ in skip:
+                continue
+            for st_ in ast.walk(t_):
+                if isinstance(st_, (ast.Assign, ast.AugAssign, ast.AnnAssign)) and st_.value is not None \
+                        and any(isinstance(x, ast.Name) and x.id in sent for x in ast.walk(st_.value)):
+                    tg_ = st_.targets if isinstance(st_, ast.Assign) else [st_.target]
+                    for t2_ in tg_:
+                        for x in ast.walk(t2_):
+                            if isinstance(x, ast.Attribute):
+                                sent_attrs.add(x.attr)
+                if isinstance(st_, ast.Call) and isinstance(st_.func, ast.Name) and st_.func.id == 'setattr':
+                    sent_attrs.add('*')
+    if sent:
+        for n_, t_ in trees.items():
+            if n_ in skip:
+                continue
+            for fn_ in ast.walk(t_):
+                if isinstance(fn_, (ast.FunctionDef, ast.AsyncFunctionDef)) and any(isinstance(x, ast.Name) and x.id in sent for x in ast.walk(fn_)):
+                    sent_funcs.add(fn_.name)
 
     def run():
         for n, t in list(trees.items()):
             if n in skip:
                 continue
             c = Canon(sigs, nn, sent)
+            c.sentinel_funcs = sent_funcs
+            c.sentinel_attrs = sent_attrs
             trees[n] = c.module(t)
             for k, v in c.count.items():
                 total[k] = total.get(k, 0) + v
